@@ -620,6 +620,16 @@ def ite(c, a, b):
     return a if c else b
 
 
+def near(a, b, tol=1e-9):
+    """|a - b| <= tol * (1 + |b|) - for obligations where the code folds float constants that the reference keeps exact
+    (paths on which an input equals a default take the concrete double instead of the symbolic value)."""
+    if not (is_sym(a) or is_sym(b)):
+        return eq(a, b)
+    la, lb = lift(a), lift(b)
+    bound = rv(tol) * (1 + z3.If(lb >= 0, lb, -lb))
+    return SymBool(z3.And(la - lb <= bound, lb - la <= bound))
+
+
 def smax(*xs):
     if len(xs) == 1:
         xs = list(xs[0])
